@@ -104,7 +104,7 @@ def run(ctx):
     NUM = key(sub[0].call_args()[0]) if len(sub) == 1 else None
     numtr = [c for c in tr if NUM is not None and obj(c.call_args()[0]) == NUM and obj(c.call_args()[-2]) == NUM]
     Nn, al, ga, it = (alg.sym(x) for x in ("this.num_subsets", "this.relaxation_parameter", "this.relaxation_gamma", "this.subiteration_num"))
-    relax = al / (1 + ga * (it / Nn))
+    relax = al / (1 + ga * sympy.Function("intdiv")(it, Nn))  # n = subiteration_num / num_subsets is an INTEGER quotient
     kinds = []
     relax_seen = None
     for c in numtr:
